@@ -12,6 +12,16 @@ BASE_NOTE = (
 
 # property -> (category, text, technique, design_ref, extra note)
 CLAIMS = {
+    "C10": (
+        "proof",
+        "The body of the template lexer's loop (the real AST of _tokenize_template, executed in place as an eagerly collected generator) is verified branch by branch against an abstract match record (kind, group texts, offsets; optional-hyphen groups are '' or '-'): "
+        "for output, tag, raw, doc and shorthand-comment matches the emitted tokens carry the group texts verbatim at the group offsets and the strip flag for the following text equals the hyphen group that immediately precedes the closing delimiter of that rule's pattern "
+        "(that group is computed from the real pattern strings on every run); for content, the emitted text is the match with exactly the requested left/right stripping, nothing is emitted when that is empty, and LiquidSyntaxError only for text starting with a default delimiter. "
+        "Comment/doc/inline-comment nodes write nothing and ContentNode writes exactly its text (structural). Which text the regular expressions match is not modelled: a bounded reference-renderer check over all hyphen combinations stands in.",
+        "contract-based deductive verification of the lexer loop body over an abstract regex-match record (z3 strings) + bounded reference-tokenizer contract check",
+        "DESIGN.md section 4 C10",
+        "re semantics trusted (DESIGN 3).",
+    ),
     "C22": (
         "proof",
         "Over an explicit pathlib model (a path has a name, a suffix, is absolute or not, may have a '..' part; base.joinpath(q) stays inside base iff q is relative and '..'-free; exists/is_file/resolve/read may raise OSError; with_suffix raises ValueError on an empty name), "
